@@ -25,8 +25,11 @@ def run(ctx, roundtrip):
     except Exception as e:  # pylint: disable=broad-except
       ctx.event("A:prepare-for-export-raised:" + type(e).__name__)
       return
+    # a program that imports a module under another name: serialisation
+    # replaces the alias spelling by the real module names on purpose
     roundtrip(ctx, fresh, "program", "P:" + src, {"kind": "program",
-                                                  "src": src}, True)
+                                                  "src": src}, True,
+              compare_decl="aliased-import" not in p["features"])
 
   hyp_run(ctx, gen_py.program(cfg), body, 6 if ctx.quick() else 500,
           label="A")
